@@ -372,7 +372,7 @@ def run(c: Check):
               "this submit at >=2 different nesting depths, distinct by heap")
     c.build()
     c.props()
-    n = 1600 if c.quick else 40000
+    n = 1600 if c.quick else 24000
     cases = []
     if c.replay:
         rp = json.load(open(c.replay))["replay"]
